@@ -100,7 +100,7 @@ func genSoupIntr(t *rapid.T, c *soupCase, max int) {
 		case 1:
 			it.Data = []int{0xC7 | rapid.IntRange(0, 7).Draw(t, "rst")<<3}
 		case 2:
-			it.Data = []int{int(rapid.Uint8().Draw(t, "vec")) &^ 1}
+			it.Data = []int{int(rapid.Uint8().Draw(t, "vec"))} // odd vector bytes too: outside C06's domain, the run ends there without verdict in lock-step checks
 		default:
 			it.Data = nil
 		}
